@@ -83,18 +83,19 @@ def lon_extent(face):
     return 360.0 - max(gaps)
 
 
-def admissible(face):
+def admissible(face, pole_margin=None, convex_margin=1e-9):
     """inside the property's quantifier, with a margin from its borders"""
-    if not (3 <= len(face) <= 8) or not convex_ccw(face):
+    pm = POLE_MARGIN if pole_margin is None else pole_margin
+    if not (3 <= len(face) <= 8) or not convex_ccw(face, convex_margin):
         return False
     mn, ms = pole_dets(face)
     has_pc = any(is_pole_corner(c) for c in face)
     for c in face:      # corners very close to a pole but not on it: latitude ill-conditioned, lat snap zone
         if not is_pole_corner(c) and abs(c[1]) > 90.0 - 0.06:
             return False
-    if not has_pc and (abs(mn) <= POLE_MARGIN or abs(ms) <= POLE_MARGIN):
+    if not has_pc and (abs(mn) <= pm or abs(ms) <= pm):
         return False
-    enclosed = (mn > POLE_MARGIN or ms > POLE_MARGIN) and not has_pc
+    enclosed = (mn > pm or ms > pm) and not has_pc
     if not enclosed and lon_extent(face) >= 179.0:
         return False
     return True
@@ -239,50 +240,212 @@ def gen_directed(rng, n_base):
 
 
 # ----------------------------------------------------------------------------------------
+# the FORM of the coordinate input (a random dimension of every case)
+# ----------------------------------------------------------------------------------------
+#   dtype   f64 | f32 | i64 | i32 | pylist   (integers: whole degrees, faces on the integer lattice)
+#   path    topo (Grid.from_topology lon/lat) | open_latlon (ux.open_grid(vertices, latlon=True)) |
+#           open_xyz (ux.open_grid(vertices, latlon=False), unit sphere or radius R) |
+#           dataset (Grid.from_dataset of a UGRID xr.Dataset)
+#   lon     pm180 ([-180,180)) | 0_360 ([0,360))
+#   norm    call Grid.normalize_cartesian_coordinates() before reading the bounds
+PLAIN = dict(dtype="f64", path="topo", lon="pm180", norm=False, R=1.0)
+NP_DTYPE = dict(f64=np.float64, f32=np.float32, i64=np.int64, i32=np.int32, pylist=np.int64)
+TOL32 = 2e-5         # rad: ~170 float32 round-offs (coordinates, xyz and the arc algebra run in float32)
+POLE_MARGIN32 = 1e-3
+
+
+def pick_form(rng):
+    if rng.random() < 0.4:
+        return dict(PLAIN)
+    path = rng.choice(["topo", "topo", "open_latlon", "open_xyz", "dataset"])
+    if path == "open_xyz":
+        dtype = rng.choice(["f64", "f32"])
+    elif path == "dataset":
+        dtype = rng.choice(["f64", "f32", "i64", "i32"])
+    else:
+        dtype = rng.choice(["f64", "f32", "i64", "i32", "pylist"])
+    return dict(dtype=dtype, path=path, lon=rng.choice(["pm180", "0_360"]), norm=rng.random() < 0.3,
+                R=rng.choice([1.0, 6371.0, 0.25]) if path == "open_xyz" else 1.0)
+
+
+def is_int(form):
+    return form["dtype"] in ("i64", "i32", "pylist")
+
+
+def form_tol(form):
+    return TOL32 if form["dtype"] == "f32" else TOL
+
+
+def form_tag(form):
+    return "/float32" if form["dtype"] == "f32" else ""
+
+
+def supplied(face, form):
+    """the face as the source supplies it: degrees in the chosen convention, exactly representable in
+    the chosen dtype (None when an integer form is asked for a face that is not on the lattice)"""
+    out = []
+    for lo, la in face:
+        lo = ((lo + 180.0) % 360.0) - 180.0
+        if form["lon"] == "0_360":
+            lo = lo % 360.0
+        if is_int(form):
+            if lo != round(lo) or la != round(la):
+                return None
+            out.append((float(round(lo)), float(round(la))))
+        elif form["dtype"] == "f32" and form["path"] != "open_xyz":
+            out.append((float(np.float32(lo)), float(np.float32(la))))
+        else:
+            out.append((float(lo), float(la)))
+    return out
+
+
+def supplied_xyz(face, form):
+    """vertices handed to open_grid(latlon=False), after the dtype cast"""
+    P = np.array([xyz_of(*c) * form["R"] for c in face])
+    return P.astype(NP_DTYPE[form["dtype"]])
+
+
+def exact_positions(face, form):
+    """unit vectors of the positions the source supplied (float64)"""
+    if form["path"] == "open_xyz":
+        P = supplied_xyz(face, form).astype(np.float64)
+        return [p / np.linalg.norm(p) for p in P]
+    return [xyz_of(*c) for c in face]
+
+
+def lattice_face(rng):
+    """a generated face snapped to whole degrees (exact in every integer form)"""
+    for _ in range(400):
+        kind = rng.choice(["generic", "generic", "bulge", "meridian", "pole-corner", "pole-enclosed"])
+        sub = ""
+        if kind == "generic":
+            f = gnomonic(rng, (rng.uniform(-180, 180), math.degrees(math.asin(rng.uniform(-0.98, 0.98)))),
+                         rng.randint(3, 7), rng.uniform(0.12, 0.5))
+        elif kind == "bulge":
+            f = gen_bulge(rng)
+        elif kind == "meridian":
+            f = gnomonic(rng, (rng.choice([180.0, 0.0]) + rng.uniform(-3, 3), rng.choice([rng.uniform(-75, 75), rng.uniform(-4, 4)])),
+                         rng.randint(3, 7), rng.uniform(0.12, 0.4))
+        elif kind == "pole-corner":
+            f, sub = gen_pole_corner(rng)
+        else:
+            f, sub = gen_pole_enclosed(rng)
+        g = []
+        for lo, la in f:
+            c = (float(((round(lo) + 180) % 360) - 180), float(max(-90, min(90, round(la)))))
+            if not g or g[-1] != c:
+                g.append(c)
+        if len(g) > 1 and g[0] == g[-1]:
+            g.pop()
+        if len(set(g)) == len(g) and admissible(g):
+            return rotate(rng, g), "lattice/" + kind + ("/" + sub if sub else "")
+    raise RuntimeError("no lattice face")
+
+
+# ----------------------------------------------------------------------------------------
 # implementation side
 # ----------------------------------------------------------------------------------------
 
-def build_grid(ux, faces):
-    lon, lat, conn = [], [], []
-    w = max(len(f) for f in faces)
-    for f in faces:
-        row = []
-        for lo, la in f:
-            row.append(len(lon))
-            lon.append(lo)
-            lat.append(la)
-        conn.append(row + [INT_FILL] * (w - len(f)))
-    return ux.Grid.from_topology(
-        node_lon=np.array(lon, dtype=float), node_lat=np.array(lat, dtype=float),
-        face_node_connectivity=np.array(conn, dtype=np.int64), fill_value=INT_FILL)
+def _cast(vals, form):
+    if form["dtype"] == "pylist":
+        return [int(v) for v in vals]
+    if is_int(form):
+        return np.array([int(v) for v in vals], dtype=NP_DTYPE[form["dtype"]])
+    return np.array(vals, dtype=NP_DTYPE[form["dtype"]])
 
 
-def observe(ux, faces):
-    """-> list of (box | exception, impl_view) per face; impl_view = corners as the grid stores them"""
-    def views(g, faces):
-        lon = np.mod(np.deg2rad(g.node_lon.values), TWO_PI)
-        lat = np.deg2rad(g.node_lat.values)
-        X, Y, Z = g.node_x.values, g.node_y.values, g.node_z.values
-        out, k = [], 0
+def build_grids(ux, faces, form):
+    """-> list of (grid, [face index]) — one grid, or one per corner count for the open_grid paths"""
+    import xarray as xr
+
+    path = form["path"]
+    if path in ("topo", "dataset"):
+        lon, lat, conn = [], [], []
+        w = max(len(f) for f in faces)
         for f in faces:
-            out.append([(float(lon[i]), float(lat[i]), float(X[i]), float(Y[i]), float(Z[i])) for i in range(k, k + len(f))])
-            k += len(f)
-        return out
+            row = []
+            for lo, la in f:
+                row.append(len(lon))
+                lon.append(lo)
+                lat.append(la)
+            conn.append(row + [INT_FILL] * (w - len(f)))
+        conn = np.array(conn, dtype=np.int64)
+        if path == "topo":
+            g = ux.Grid.from_topology(node_lon=_cast(lon, form), node_lat=_cast(lat, form),
+                                      face_node_connectivity=conn, fill_value=INT_FILL)
+        else:
+            ds = xr.Dataset({
+                "mesh": xr.DataArray(0, attrs=dict(cf_role="mesh_topology", topology_dimension=2,
+                                                   node_coordinates="node_lon node_lat",
+                                                   face_node_connectivity="face_node_connectivity")),
+                "node_lon": (("n_node",), _cast(lon, form), dict(standard_name="longitude", units="degrees_east")),
+                "node_lat": (("n_node",), _cast(lat, form), dict(standard_name="latitude", units="degrees_north")),
+                "face_node_connectivity": (("n_face", "n_max_face_nodes"), conn,
+                                           dict(cf_role="face_node_connectivity", start_index=0, _FillValue=INT_FILL)),
+            })
+            g = ux.Grid.from_dataset(ds)
+        return [(g, list(range(len(faces))))]
+    out = []
+    for n in sorted({len(f) for f in faces}):
+        idx = [i for i, f in enumerate(faces) if len(f) == n]
+        if path == "open_latlon":
+            if form["dtype"] == "pylist":
+                verts = [[[int(lo), int(la)] for lo, la in faces[i]] for i in idx]
+            elif is_int(form):
+                verts = np.array([[[int(lo), int(la)] for lo, la in faces[i]] for i in idx], dtype=NP_DTYPE[form["dtype"]])
+            else:
+                verts = np.array([faces[i] for i in idx], dtype=NP_DTYPE[form["dtype"]])
+            g = ux.open_grid(verts, latlon=True)
+        else:
+            verts = np.array([supplied_xyz(faces[i], form) for i in idx])
+            g = ux.open_grid(verts, latlon=False)
+        out.append((g, idx))
+    return out
 
+
+def grid_views(g, k):
+    """corners of the grid's first k faces as the implementation stores them"""
+    lon = np.mod(np.deg2rad(np.asarray(g.node_lon.values, dtype=np.float64)), TWO_PI)
+    lat = np.deg2rad(np.asarray(g.node_lat.values, dtype=np.float64))
+    # the (repaired) algorithm works on unit vectors in double precision
+    P = np.array([g.node_x.values, g.node_y.values, g.node_z.values], dtype=np.float64)
+    X, Y, Z = P / np.linalg.norm(P, axis=0)
+    fnc = g.face_node_connectivity.values
+    out = []
+    for r in range(k):
+        ids = [int(i) for i in fnc[r] if i != INT_FILL]
+        out.append([(float(lon[i]), float(lat[i]), float(X[i]), float(Y[i]), float(Z[i])) for i in ids])
+    return out
+
+
+def is_typing_error(e):
+    return type(e).__name__ in ("TypingError", "NumbaTypeError", "UnsupportedError") or "numba" in type(e).__module__
+
+
+def observe(ux, faces, form=None):
+    """-> list of (box | exception, impl_view) per face; impl_view = corners as the grid stores them"""
+    form = form or PLAIN
     try:
-        g = build_grid(ux, faces)
-        B = np.asarray(g.bounds.values, dtype=float)
-        return [(B[i], v) for i, v in enumerate(views(g, faces))]
+        res = [None] * len(faces)
+        for g, idx in build_grids(ux, faces, form):
+            if form["norm"]:
+                g.normalize_cartesian_coordinates()
+            B = np.asarray(g.bounds.values, dtype=float)
+            V = grid_views(g, len(idx))
+            for r, i in enumerate(idx):
+                res[i] = (B[r], V[r])
+        return res
     except Exception as e:
         if len(faces) == 1:
             try:
-                v = views(build_grid(ux, faces), faces)[0]
+                g, _ = build_grids(ux, faces, form)[0]
+                v = grid_views(g, 1)[0]
             except Exception:
                 v = None
             return [(e, v)]
     out = []
     for f in faces:
-        out += observe(ux, [f])
+        out += observe(ux, [f], form)
     return out
 
 
@@ -311,10 +474,12 @@ def classify(face, kind):
                 ref_inside=ref_in, corner_on_ref_meridian=on_ref, crosses_ref_meridian=crosses, kind=kind)
 
 
-def signature(cl, fails, box):
-    full = abs(box[1][0]) <= TOL and abs(box[1][1] - TWO_PI) <= TOL
-    reports_pole = full and (abs(box[0][1] - math.pi / 2) <= TOL or abs(box[0][0] + math.pi / 2) <= TOL)
+def signature(cl, fails, box, tol=TOL):
+    full = abs(box[1][0]) <= tol and abs(box[1][1] - TWO_PI) <= tol
+    reports_pole = full and (abs(box[0][1] - math.pi / 2) <= tol or abs(box[0][0] + math.pi / 2) <= tol)
     if reports_pole and not cl["enclosed"] and not cl["pole_corner"]:
+        if cl["corner_on_ref_meridian"]:
+            return "C13/false-pole/corner-on-ref-meridian"
         return f"C13/false-pole/{cl['loc']}/" + ("crosses-ref-meridian" if cl["crosses_ref_meridian"] else "other")
     if "enclosed_pole" in fails:
         return "C13/pole-missed/" + ("corner-on-ref-meridian" if cl["corner_on_ref_meridian"] else "other")
@@ -325,27 +490,44 @@ def signature(cl, fails, box):
     return "C13/unknown"
 
 
-def judge(ctx, face, kind, obs):
+def judge(ctx, face, kind, obs, form=None):
+    form = form or PLAIN
     d = ctx.driver
     box, view = obs
     cl = classify(face, kind)
-    inp = dict(face=[list(c) for c in face], kind=kind, classes=cl)
-    key = tuple(map(tuple, face))
+    inp = dict(face=[list(c) for c in face], kind=kind, classes=cl, form=form)
+    key = (tuple(map(tuple, face)), tuple(sorted(form.items())))
+    tol, tag = form_tol(form), form_tag(form)
+    ctx.hit("form:dtype=" + form["dtype"])
+    ctx.hit("form:path=" + form["path"])
+    ctx.hit("form:lon=" + form["lon"])
+    if form["norm"]:
+        ctx.hit("form:normalized")
+    if form["R"] != 1.0:
+        ctx.hit("form:radius!=1")
     for t in ("pole_corner", "enclosed", "ref_inside", "corner_on_ref_meridian", "crosses_ref_meridian"):
         if cl[t]:
             ctx.hit(t)
     ctx.hit("kind=" + kind)
     ctx.hit("n=%d" % len(face))
     ctx.hit("loc=" + cl["loc"])
+    if isinstance(box, Exception) and is_typing_error(box):
+        # numba cannot type this coordinate dtype: C08's listed finding, noted and not judged here
+        ctx.hit("noted:numba-typing-error:" + form["dtype"])
+        return
     if isinstance(box, Exception):
         ctx.case(key, sample=None)
         miss = "pole-missed/" + ("corner-on-ref-meridian" if cl["corner_on_ref_meridian"] else "other") if cl["enclosed"] else "other"
-        ctx.fail(f"C13/raises/{type(box).__name__}/{miss}",
+        ctx.fail(f"C13/raises/{type(box).__name__}/{miss}{tag}",
                  f"Grid.bounds raises {type(box).__name__}: {box}", inp, repr(box), None, ["raises"])
         return
     ib = [[float(box[0][0]), float(box[0][1])], [float(box[1][0]), float(box[1][1])]]
-    oracle_xyz = [xyz_of(*c) for c in face]
-    toks = ["1", str(K), str(len(face))]
+    oracle_xyz = exact_positions(face, form)
+    if view is None or len(view) != len(face):
+        ctx.fail(f"C13/corners/{form['path']}{tag}", f"the grid built from the face has {0 if view is None else len(view)} corners, the face {len(face)}",
+                 inp, dict(bounds=ib), None, ["corners"])
+        return
+    toks = ["1", str(K), enc_float(tol), enc_float(1e-9), str(len(face))]
     for (lo, la, x, y, z) in view:
         toks += [enc_float(v) for v in (lo, la, x, y, z)]
     for p in oracle_xyz:
@@ -370,8 +552,11 @@ def judge(ctx, face, kind, obs):
     model = dict(repaired=mb, has_north=bool(hasN), has_south=bool(hasS), model_fails=mfails, needed=need,
                  pole_margin_north=poleN, pole_margin_south=poleS)
     if fails:
-        ctx.fail(signature(cl, fails, ib),
-                 f"Grid.bounds {ib} violates {fails}; the boundary needs {need} ({kind}, {len(face)} corners)",
+        sig = signature(cl, fails, ib, tol)
+        if not (sig.startswith("C13/false-pole/") or sig == "C13/pole-missed/corner-on-ref-meridian"):
+            sig += tag      # these two do not depend on the precision of the coordinates
+        ctx.fail(sig,
+                 f"Grid.bounds {ib} violates {fails}; the boundary needs {need} ({kind}, {len(face)} corners, form {form})",
                  inp, impl, model, fails)
         return
     # correspondence with the (repaired) Lean transcription
@@ -380,21 +565,48 @@ def judge(ctx, face, kind, obs):
             return True
         dl = max(abs(a[0][0] - b[0][0]), abs(a[0][1] - b[0][1]))
         dlon = max(min(abs(a[1][i] - b[1][i]), TWO_PI - abs(a[1][i] - b[1][i])) for i in (0, 1))
-        return dl > TOL or dlon > TOL
+        return dl > tol or dlon > tol
 
     if differs(ib, mb):
-        ctx.mismatch("C13/model-vs-impl", inp, impl, model)
+        if cl["corner_on_ref_meridian"]:
+            # a crossing of the reference arc exactly AT a corner: whether it is counted is decided by
+            # end-point rounding inside point_within_gca, which the model idealises (C14's subject);
+            # the implementation's box has just been judged by the oracle, only the comparison is skipped
+            ctx.hit("degenerate:corner-on-ref-meridian:model-not-compared")
+        else:
+            ctx.mismatch("C13/model-vs-impl", inp, impl, model)
 
 
-def run_faces(ctx, items):
+def face_ok(face, kind, form):
+    f = face[::-1] if kind.endswith("/cw") else face
+    if form["dtype"] == "f32":
+        return admissible(f, pole_margin=POLE_MARGIN32, convex_margin=1e-5)
+    return admissible(f)
+
+
+def run_faces(ctx, items, form=None, rng=None):
+    """judge (face, kind) items; `form` fixed, or drawn per chunk from `rng` (integer forms take their
+    faces from the lattice generator instead of the chunk)"""
     import uxarray as ux
 
     B = 24
     for s in range(0, len(items), B):
         chunk = items[s:s + B]
-        obs = observe(ux, [f for f, _ in chunk])
-        for (f, kind), o in zip(chunk, obs):
-            judge(ctx, f, kind, o)
+        fm = dict(form) if form else (pick_form(rng) if rng is not None else dict(PLAIN))
+        if is_int(fm) and rng is not None:
+            chunk = [lattice_face(rng) for _ in chunk]
+        todo = []
+        for f, kind in chunk:
+            g = supplied(f, fm)
+            if g is None or not face_ok(g, kind, fm):
+                ctx.hit("dropped:not-admissible-in-this-form")
+                continue
+            todo.append((g, kind))
+        if not todo:
+            continue
+        obs = observe(ux, [f for f, _ in todo], fm)
+        for (f, kind), o in zip(todo, obs):
+            judge(ctx, f, kind, o, fm)
 
 
 def run(ctx):
@@ -403,13 +615,18 @@ def run(ctx):
                 "with a corner exactly at a pole (nominal pole longitude adjacent / 0 / random), faces enclosing a pole "
                 "(off-centre, regular and irregular rings, rings with a corner on longitude 0); random traversal start; "
                 "a directed stream of faces across longitude 0 / 180 listed from every start corner in both orientations; "
+                "the FORM of the coordinate input is drawn per batch: dtype float64/float32/int64/int32/Python ints (integer forms on "
+                "whole-degree lattice faces), construction by from_topology / open_grid(latlon=True) / open_grid(xyz, radius 1, 6371, 0.25) / "
+                "from_dataset, longitudes in [-180,180) or [0,360), with or without normalize_cartesian_coordinates(); the oracle judges against "
+                "the positions exactly as supplied (float32 forms: tolerance 2e-5 rad); "
                 "faces within 1e-6 of a pole on the boundary or with corners within 0.06 deg of a pole are not generated; "
                 "distinct = distinct corner lists")
     ctx.assumptions = [
         "np.mod / deg2rad / node_x,y,z of the grid are inputs of the model (C04 is about their agreement)",
         "gca_gca_intersection / point_within_gca are idealised in the model's parity count (C14 is about them); "
         "their float behaviour enters only through the differential comparison",
-        "tolerance 1e-9 rad for enclosure, attainment and model/implementation agreement",
+        "tolerance 1e-9 rad for enclosure, attainment and model/implementation agreement (2e-5 rad when the coordinates are float32)",
+        "dtype promotion / conversion of the supplied coordinates is exercised by the form dimension, not modelled (the model is over a field)",
     ]
     rng = ctx.rng
     corpus = []
@@ -417,12 +634,16 @@ def run(ctx):
         j = json.loads(f.read_text())
         corpus.append(([tuple(map(float, c)) for c in j["face"]], j.get("kind", "corpus")))
     run_faces(ctx, corpus)
-    run_faces(ctx, gen_directed(rng, ctx.n(24, 400)))
+    # whole-degree hand-built grids in every integer form (small, always run)
+    for dt, path in (("i64", "topo"), ("i32", "topo"), ("pylist", "topo"), ("pylist", "open_latlon"), ("i64", "dataset")):
+        fm = dict(PLAIN, dtype=dt, path=path, lon=rng.choice(["pm180", "0_360"]))
+        run_faces(ctx, [lattice_face(rng) for _ in range(ctx.n(12, 120))], form=fm)
+    run_faces(ctx, gen_directed(rng, ctx.n(24, 400)), rng=rng)
     items = [gen_face(rng) for _ in range(ctx.n(1500, 60000))]
-    run_faces(ctx, items)
+    run_faces(ctx, items, rng=rng)
 
 
 def replay(ctx, rp):
     inp = rp["input"]
     face = [tuple(c) for c in inp["face"]]
-    run_faces(ctx, [(face, inp.get("kind", "replay"))])
+    run_faces(ctx, [(face, inp.get("kind", "replay"))], form=inp.get("form") or PLAIN)
